@@ -16,6 +16,8 @@ ASSUMPTIONS = [
 
 def main(prop, args):
     units = vfamily.make_units(prop, args.tier, only=set(args.module) if args.module else None)
+    if args.tier != 'quick':
+        units = common.plan_thorough(units, vfamily.make_units(prop, 'quick', only=set(args.module) if args.module else None))
     units = common.shuffle_units(units)
     rep = common.Report(prop, args.tier)
     rep.assumptions = ASSUMPTIONS
